@@ -332,6 +332,10 @@ T* copy_memory_or_deny_access(rlbox_sandbox<T_Sbx>& sandbox,
   tainted<T*, T_Sbx> src_tainted = src;
   char* src_raw = src_tainted.copy_and_verify_buffer_address(
     [](uintptr_t val) { return reinterpret_cast<char*>(val); }, num);
+  if (!src_raw) {
+    free(copy);
+    return nullptr;
+  }
   std::memcpy(copy, src_raw, source_size);
   if (free_source_on_copy) {
     sandbox.free_in_sandbox(src);
